@@ -323,7 +323,7 @@ def families(tier):
                     rest.append(FlatBody(b, pose, (-1, 0, F(1, 2), 2)))
         fams = A.with_int_mode(core_f, tier) + rest
         moved = A.QUICK_BODIES + ['square', 'pyramid']
-        step = 2
+        step = 4
     for b in moved:
         fams.append(MovedBody(b, A.P1, params, step))
     return fams
